@@ -43,7 +43,7 @@ def report_named(ctx, rep, tpath, prefix, st, what):
                 if '"t":"summary"' in recs[k]:
                     summ = json.loads(recs[k])
                     break
-        ctx.violation("%s %s (scenario: %s)" % (name, what, json.dumps({k: summ.get(k) for k in ("kind", "n", "crash", "isolate", "async_until", "withheld_from", "drop_first_sync", "nodes", "e2e", "submitted") if summ and k in summ})[:600]),
+        ctx.violation("%s %s (scenario: %s)" % (name, what, json.dumps({k: summ.get(k) for k in ("kind", "n", "crash", "isolate", "async_until", "late_to", "withheld_from", "drop_first_sync", "nodes", "e2e", "submitted") if summ and k in summ})[:600]),
                       name, {"monitor": name, "record": e, "scenario_summary": summ})
 
 
@@ -88,9 +88,9 @@ def run_c06(ctx):
     for n, runs in ([(4, 5), (5, 3), (7, 3)] if q else [(4, 60), (5, 40), (6, 40), (7, 40)]):
         st, rep, rep2, tpath = run_full(ctx, hs, "live", runs, extra=["n=%d" % n], tag="-n%d" % n)
         for s in st["summaries"]:
-            ctx.distinct.add(json.dumps([s["n"], s["crash"], s["async_until"]]))
+            ctx.distinct.add(json.dumps([s["n"], s["crash"], s["async_until"], s.get("late_to")]))
         if first:
-            ctx.samples = [{k: s[k] for k in ("n", "crash", "async_until", "nodes")} for s in st["summaries"][:3]]
+            ctx.samples = [{k: s[k] for k in ("n", "crash", "async_until", "late_to", "nodes")} for s in st["summaries"][:3]]
             first = False
         report_named(ctx, rep2, tpath, "C06.", st, "a live node stopped committing")
         report_agreement(ctx, rep, tpath, "liveness scenario", lambda i: {"kind": "full live", "n": n, "run": i, "seed": ctx.seed})
